@@ -96,15 +96,15 @@ PROPS['C11'] = dict(
     level='proof',
     technique='Verus postconditions that define every limb of the selected column from the inputs only, plus frame clauses over all other limb blocks, on the extracted real text',
     level_text='Unbounded proof for the coefficient-domain column operations: each ensures gives final(res).limb(col, j) for all j < size as a function of the read-only inputs (no old(res) on the right-hand side for out-of-place ops) and frame_ok: every block outside (col, 0..size) is unchanged.',
-    level_note='Covers the vec_znx_* reference operations under contract (see functions_under_contract); the DFT-family operations and the core layer are not covered by this check (no abstract-kernel harness built yet).',
-    units=[V('vec_znx_arith'), V('vec_znx_ring'), V('vec_znx_merge'), V('vec_znx_big'), V('vec_znx_normalize'),
+    level_note='Covers the vec_znx_* reference operations and the transform-domain wrappers of vec_znx_dft.rs (fft64 and ntt120, numeric kernels abstract) under contract (see functions_under_contract); idft/svp/vmp/convolution and the core layer are not covered by this check.',
+    units=[V('vec_znx_arith'), V('vec_znx_ring'), V('vec_znx_merge'), V('vec_znx_big'), V('vec_znx_normalize'), V('vec_znx_dft'), V('vec_znx_dft_ntt120'),
            K('poulpy-cpu-ref', 'verif_kani::c11_ak', ['c11_ak_dft_apply__a3_r2_step2_off1', 'c11_ak_dft_apply__a2_r3_step1_off0', 'c11_ak_dft_apply__a3_r3_step2_off0', 'c11_ak_dft_apply__a2_r2_step1_off1'],
              cls='bounded', tier='thorough', timeout=1500, bound='FFT64Ref, N=8, two output columns, (a_size, res_size, step, offset) constant per harness; numeric kernels abstract',
              functions=['VecZnxDftApply::vec_znx_dft_apply (fft64 reference, real shape logic; fft_ref / reim_from_znx_i64_ref / table fills replaced by bit-level mixers)'],
              trusted=['abstract kernels: fft_ref -> identity, reim_from_znx_i64_ref -> bit-cast, fill_fft4/ifft4_omegas -> no-op (two-run determinism and frame only)'])],
     trusted_base=VERUS_TRUST,
     assumptions=['operands are distinct objects from the result (Rust borrow rules: &mut res vs &a)'],
-    remainder='DFT-domain operations other than vec_znx_dft_apply (svp_*, vmp_*: two-run harness written but CBMC times out, cnv_*), NTT120 big accumulator, cross-radix normalisation, shifts, core-layer operations',
+    remainder='idft_apply*, svp_*, vmp_* (two-run harness written but CBMC times out), cnv_*, NTT120 big accumulator, cross-radix normalisation, shifts, core-layer operations',
 )
 
 PROPS['C08'] = dict(
@@ -326,14 +326,16 @@ PROPS['C10'] = dict(
 
 PROPS['C07'] = dict(
     level='proof',
-    technique='Kani loop-free full-domain contract check of the real NTT120 scalar conversion kernels (the entry into the transform domain)',
-    level_text='Complete per coefficient for every i64 (and every mask): b_from_znx64_ref yields, for each of the four primes of the backend (Primes30), a residue congruent to x with the documented lazy range < 2^63 + Q; the masked variant equals the conversion of the masked value.',
-    level_note='Only the integer conversion into the NTT120 residue domain. Exactness of FFT64 products is a floating-point fact (Verus has no f64 theory; one svp product at N=2 did not finish in CBMC); NTT butterflies, CRT reconstruction (128-bit modular arithmetic: harnesses time out), mat-vec accumulation and convolution are undecided.',
-    units=[K('poulpy-cpu-ref', 'verif_kani::c07', ['c07_b_from_znx64_residues', 'c07_b_from_znx64_masked_residues'], cls='complete', timeout=900,
+    technique='Verus contracts on the real transform-domain wrappers of both backends (fft64 and ntt120 vec_znx_dft.rs: add/sub/copy/limb-select/zero/apply act limb-wise, numeric kernels abstract); Kani loop-free full-domain contract check of the real NTT120 scalar conversion kernels (the entry into the transform domain)',
+    level_text='Unbounded (all shapes, steps, offsets, a_scale): every limb of the selected column of vec_znx_dft_{add_into, add_assign, add_scaled_assign, sub, sub_assign, sub_negate_assign, copy, zero, apply} and of their ntt120_* twins is the named kernel applied to exactly the input limbs the limb rule selects (limb offset + j*step, limb j + a_scale), zero past the source, every other limb block unchanged. Complete per coefficient for every i64 (and every mask): b_from_znx64_ref yields, for each of the four primes of the backend (Primes30), a residue congruent to x with the documented lazy range < 2^63 + Q; the masked variant equals the conversion of the masked value.',
+    level_note='The numeric kernels (reim_* / ntt_* element operations, the FFT/NTT itself) are uninterpreted in the Verus units: that forward followed by inverse is the identity and that products are exact is NOT decided (FFT64 is floating point; NTT butterflies / CRT reconstruction time out in CBMC). idft_apply*, svp, vmp, convolution are not under contract.',
+    units=[V('vec_znx_dft'), V('vec_znx_dft_ntt120'),
+           K('poulpy-cpu-ref', 'verif_kani::c07', ['c07_b_from_znx64_residues', 'c07_b_from_znx64_masked_residues'], cls='complete', timeout=900,
              functions=['reference::ntt120::arithmetic::b_from_znx64_ref', 'b_from_znx64_masked_ref'])],
-    trusted_base=[],
+    trusted_base=VERUS_TRUST + ['abstract kernel contracts of ReimArith / ReimFFTExecute / Ntt* traits (block in, block out; lengths)', 'limb_u64 / limb_u64_mut (bytemuck casts of at / at_mut) return the 4n-word block of the limb',
+                  'assumed std specifications of usize::div_ceil, i64::unsigned_abs'],
     assumptions=[],
-    remainder='forward/inverse transform identity, limb-wise transform-domain add/sub/copy, svp/vmp/convolution equal exact negacyclic products, c_from_znx64 / c_from_b / add_bbb / CRT round trip (harnesses written, CBMC times out on the 64/128-bit modular reductions)',
+    remainder='forward/inverse transform identity, idft_apply / idft_apply_tmpa / consume, svp/vmp/convolution equal exact negacyclic products, c_from_znx64 / c_from_b / add_bbb / CRT round trip (harnesses written, CBMC times out on the 64/128-bit modular reductions)',
 )
 
 for _p, _r in _PENDING.items():
